@@ -104,7 +104,7 @@ theorem step_arrive {s s' : State} {i : Nat} {c : Choice} (h : step Cfg.std s (.
 
 theorem step_signal_some {s s' : State} {i : Nat} (h : step Cfg.std s (.signal (some i)) = some s') :
     (chanAt s s.cur).closed = false ∧ pcOf s i = some (.parked s.cur) ∧ s' = setPc s i (.woken false) := by
-  simp only [step, Cfg.std, Bool.not_true, Bool.false_eq_true, if_false, Bool.true_and, afterWake, if_true] at h
+  simp only [step, sendOn, Cfg.std, Bool.not_true, Bool.false_eq_true, if_false, Bool.true_and, afterWake, if_true] at h
   split at h
   · cases h
   · rename_i hcl
@@ -118,7 +118,7 @@ theorem step_signal_none {s s' : State} (h : step Cfg.std s (.signal none) = som
       ((chanAt s s.cur).buf < (chanAt s s.cur).cap ∧
           s' = { s with chans := s.chans.set s.cur { chanAt s s.cur with buf := (chanAt s s.cur).buf + 1 } }
        ∨ ¬ (chanAt s s.cur).buf < (chanAt s s.cur).cap ∧ s' = s) := by
-  simp only [step, Cfg.std, Bool.not_true, Bool.false_eq_true, if_false, Bool.true_and, if_true] at h
+  simp only [step, sendOn, Cfg.std, Bool.not_true, Bool.false_eq_true, if_false, Bool.true_and, if_true] at h
   split at h
   · cases h
   · rename_i hcl
